@@ -1,4 +1,7 @@
-import PegVerif
+import PegVerif.Exec.ErrDriver
 def main (args : List String) : IO UInt32 := do
-  IO.eprintln s!"pegmodel: unknown command {args}"
-  return 2
+  match args with
+  | ["err"] => PegVerif.errMain
+  | _ =>
+    IO.eprintln s!"pegmodel: unknown command {args}"
+    return 2
